@@ -164,6 +164,23 @@ def run(ctx):
             okc = [bool(e) and d.edges_dominate(e, bi) for e in (e_after, e_before, e_active)]
             ctx.ob("D2", k + "|incremental log", all(okc), t["sp"], "only when after == heads, before == diff_cursor and the log is active" if all(okc) else
                    "the session's incremental patch log answers a diff it was not kept for (after == heads: %s, before == diff_cursor: %s, active: %s)" % tuple(okc))
+            # the log follows what the session shows: it answers only when `after` is the session's heads (the isolated heads, if any)
+            # and those are the document's heads
+            def eq_full(full):
+                def pred(t_):
+                    if (norm_fn(t_.get("fn")) or "").split("::")[-1] != "eq":
+                        return False
+                    cs_ = set()
+                    for a_ in t_.get("args", []):
+                        cs_ |= {norm_fn(c) for c in d.provenance(a_, through_calls=False).callees()}
+                    return full in cs_
+                return pred
+            e_sess = cfg.cond_edges(d, atom_call=eq_full("automerge::autocommit::AutoCommit::get_heads"))
+            e_doc = cfg.cond_edges(d, atom_call=eq_full("automerge::automerge::Automerge::get_heads"))
+            oks = [bool(e) and d.edges_dominate(e, bi) for e in (e_sess, e_doc)]
+            ctx.ob("D2", k + "|incremental log|session view", all(oks), t["sp"], "only when the heads asked for are the session's and the document's" if all(oks) else
+                   "the incremental patch log, which follows the session's (isolated) view, answers for heads compared with %s only: under isolation diff(before, after) returns the log of the isolated view" %
+                   ("the document's heads" if oks[1] else "the session's heads" if oks[0] else "neither the session's nor the document's heads"))
         else:
             walk = [(wb, wt) for wb, wt in d.calls() if (callee(wt) or "").endswith("Automerge::log_current_state") and d.block_dominates(wb, bi)]
             if walk:
@@ -183,6 +200,7 @@ def run(ctx):
         ctx.ob("D2", k, ok, st["sp"], "keyed by this call's before / after heads; holds the patches just made" if ok else "the diff cache is filled under a key that is not this call's range")
     check_diff_siblings(ctx, f)
     check_same_arm(ctx, f)
+    check_cursor_update(ctx, f)
 
 
 def check_diff_siblings(ctx, f):
@@ -242,3 +260,25 @@ def check_same_arm(ctx, f):
             ctx.ob("D4", k, not bad, t["sp"], "independent of the increment test" if not bad else
                    "the conflict patch is only logged when the op was not incremented (%s): a counter incremented and newly conflicted between the two heads loses its conflict flag in the diff" % bad)
     ctx.floor("conflict patches for unchanged winners in the diff items", n, 2)
+
+
+def check_cursor_update(ctx, f):
+    """D5: update_diff_cursor always truncates the delivered log and moves the cursor (also at empty heads)"""
+    ctx.rule("D5", "AutoCommit::update_diff_cursor: PatchLog::truncate and the store to self.diff_cursor are not control dependent on anything but the transaction-closing prologue (no emptiness test on the heads)")
+    from . import C28
+    P = [p for p in f.fns if norm_fn(p) == "automerge::autocommit::AutoCommit::update_diff_cursor"]
+    if len(P) != 1:
+        raise facts.AnchorMissing("AutoCommit::update_diff_cursor")
+    b = cfg.body(f.fns[P[0]])
+    ctx.analysed_fns.add(P[0])
+    steps = [(bi, "truncate", t["sp"]) for bi, t in b.calls() if (callee(t) or "").endswith("PatchLog::truncate")]
+    steps += [(bi, "cursor", st["sp"]) for bi, blk in enumerate(b.blocks) if not blk.get("cleanup") for st in blk["st"] if st["d"]["p"] and st["d"]["p"][-1] == ".diff_cursor"]
+    ctx.floor("truncate / cursor stores in update_diff_cursor", len(steps), 2)
+    for bi, what, sp in steps:
+        bad = []
+        for sb, sw in C28.control_switches_transitive(b, bi):
+            src = b.bool_operand_source(sw["op"])
+            if src and src["kind"] == "call" and (norm_fn(src["callee"]) or "").split("::")[-1] in ("is_empty", "is_some", "is_none") or (src and src["kind"] == "bin"):
+                bad.append(util.where(b, sb))
+        ctx.ob("D5", "update_diff_cursor|%s unconditional" % what, not bad, sp, "always" if not bad else
+               "the delivered patches are kept / the cursor stays behind under a test (%s): after the session was at empty heads diff_incremental() hands out patches the consumer already applied" % bad)
